@@ -1093,11 +1093,21 @@ impl TypeChecker {
             let last_len = paths.len();
             let pending = paths.clone();
             paths.retain(|p| {
-                let waits = pending.iter().any(|q| {
-                    !std::ptr::eq(*p, *q)
-                        && q.idents.last().map(|i| i.node)
-                            == p.idents.first().map(|i| i.node)
+                // A declaration of this scope goes before its imports, so an
+                // import that starts with a declared name has nothing to
+                // wait for.
+                let declared_here = p.idents.first().is_some_and(|i| {
+                    self.type_info
+                        .scope_graph
+                        .resolve_name(scope, i, false)
+                        .is_some()
                 });
+                let waits = !declared_here
+                    && pending.iter().any(|q| {
+                        !std::ptr::eq(*p, *q)
+                            && q.idents.last().map(|i| i.node)
+                                == p.idents.first().map(|i| i.node)
+                    });
                 waits || self.import(scope, p).is_err()
             });
             let new_len = paths.len();
